@@ -172,6 +172,15 @@ pub struct AllocScripts {
     /// so that one thread's operations cannot be mistaken for another's.
     #[serde(default)]
     pub vary_by_thread: bool,
+    /// If non-zero, the `benched` script only runs in calls whose index mod 16
+    /// has its bit set (samples without any allocation *before* samples with
+    /// some: the recorded tallies are sparse in every pattern).
+    #[serde(default)]
+    pub benched_call_mask: u16,
+    /// If non-zero, the `benched` script only runs on logical threads whose
+    /// id mod 8 has its bit set.
+    #[serde(default)]
+    pub benched_thread_mask: u8,
     pub gen: Vec<AllocStep>,
     pub benched: Vec<AllocStep>,
     pub drop_out: Vec<AllocStep>,
@@ -457,6 +466,14 @@ fn run_alloc_script(pick: fn(&AllocScripts) -> &Vec<AllocStep>) {
         let call_index = with_state(|_, st, _| st.calls.saturating_sub(1)).unwrap_or(0);
         let first = world.case.allocs.benched_first_calls;
         if first != 0 && call_index >= first as u64 {
+            return;
+        }
+        let call_mask = world.case.allocs.benched_call_mask;
+        if call_mask != 0 && call_mask & (1 << (call_index % 16)) == 0 {
+            return;
+        }
+        let thread_mask = world.case.allocs.benched_thread_mask;
+        if thread_mask != 0 && thread_mask & (1 << (ltid() % 8)) == 0 {
             return;
         }
         if world.case.allocs.benched_vary {
